@@ -1,9 +1,11 @@
 SPECIFICATION Spec
 CONSTANTS
   Deviations <- NoDevs
-  InputMenu <- MenuQuick
+  InputMenu <- MenuChain
   MaxNodes = 3
   Vals <- ValsStd
   Rich = 1
-INVARIANT Sound
+  Chain = TRUE
+INVARIANT DesignSound
+INVARIANT ShapesSound
 CHECK_DEADLOCK FALSE
